@@ -24,6 +24,8 @@ def parse_cases(text):
         elif line.startswith("STEP "):
             op, res, obs = line[5:].split(" @@ ")
             cur["steps"].append((op, int(res), obs))
+        elif line.startswith("ATTEMPT "):
+            cur["attempt"] = line[len("ATTEMPT "):]   # the local action handed to the kernel last (printed before delivery)
         elif line.startswith("CSTEP "):
             cur.setdefault("cobs", []).append(line.split(" @@ ", 1)[1])
         elif line.startswith("HUNG "):
@@ -98,6 +100,8 @@ def run_harness(c, binary, seed, ncases, nops, extra=(), batch=5, workers=6, bas
                 sub = lambda t: pat.sub(lambda m: ren.get(m.group(0), m.group(0)), t)
                 c_["bdefs"] = [(ren[n], b_) for n, b_ in c_["bdefs"]]
                 c_["steps"] = [(sub(op), res, sub(obs)) for op, res, obs in c_["steps"]]
+                if c_.get("attempt"):
+                    c_["attempt"] = sub(c_["attempt"])
                 if "cobs" in c_:
                     c_["cobs"] = [sub(o) for o in c_["cobs"]]
                 c_["init"] = (c_["init"][0], sub(c_["init"][1])) if c_["init"] else None
@@ -298,9 +302,18 @@ def mirror_check(c, prop_file, monitors, what, quick=(40, 30), thorough=(600, 40
         # the real mirror died (kernel panic) or the harness gave up: that batch's histories are incomplete, so the
         # correspondence is not established for them; C09's kernel part reports the panic itself with its history
         m = re.search(r"panic: (.*)", cr["stderr"])
+        died = [k for k in cases if k["idx"] == cr["case"]]
+        hist = {}
+        if died and died[0].get("panic"):
+            # the history up to the death, and the local action that was being delivered if there was one
+            hist = {"steps_before_the_death": [{"op": op[:600], "impl_result": res} for op, res, _ in died[0]["steps"][-8:]],
+                    "bdefs": dict(died[0]["bdefs"][:200])}
+            if died[0].get("attempt") and (not died[0]["steps"] or died[0]["steps"][-1][0] != died[0]["attempt"]):
+                hist["local_action_being_delivered"] = died[0]["attempt"]
+        rp = {"batch_seed": cr["batch_seed"], "how": "bin/h_mirror -seed %d -cases 5 -ops %d %s" % (cr["batch_seed"], nops, " ".join(["-replay"] + list(extra)))}
+        rp.update(hist)
         c.fail_obligation("harness-run: the real mirror died during a generated history",
-                          (m.group(1) if m else "exit %s" % cr["rc"])[:300] + "\n" + cr["stderr"][-1200:],
-                          {"batch_seed": cr["batch_seed"], "how": "bin/h_mirror -seed %d -cases 5 -ops %d %s" % (cr["batch_seed"], nops, " ".join(["-replay"] + list(extra)))})
+                          (m.group(1) if m else "exit %s" % cr["rc"])[:300] + "\n" + cr["stderr"][-1200:], rp)
     for k in cases:
         if k.get("restart_failed"):
             c.report("restart-failed", "the real mirror did not come up again after a crash: %s" % k["restart_failed"].split(" @@ ")[-1][:200],
